@@ -52,6 +52,14 @@ def emit(ctx, module, cfg, outputs):
     return res, r
 
 
+def parallel(f, items):
+    """f over items, a few at a time (independent TLC runs: each is mostly JVM start-up and parsing);
+    results in the order of items, the first exception is raised."""
+    from concurrent.futures import ThreadPoolExecutor
+    with ThreadPoolExecutor(max_workers=4) as ex:
+        return list(ex.map(f, items))
+
+
 def summary_of(out):
     return json.loads(out[out.rindex("SUMMARY ") + 8:])
 
@@ -63,6 +71,12 @@ def load_traces(trace):
     if os.path.exists(trace + ".meta"):
         meta = {m["t"]: m["meta"] for m in verif.read_ndjson(trace + ".meta")}
     return trs, meta
+
+
+def payload_text(p):
+    """A payload of SASL.tla (symbols) as the driver renders it."""
+    outside = "!%-*_"
+    return "".join({1: "Q", 2: "=", 4: " ", 5: "\n"}.get(c, outside[i % len(outside)]) for i, c in enumerate(p))
 
 
 def strip(e):
